@@ -378,36 +378,60 @@ fn exhaustive(tier: Tier, _seed: u64) -> ExtraResult {
             }
         }
     }
-    for a in &singles {
-        for b in &singles {
-            for prio_b in [0u32, 1] {
-                let mut t1 = a.clone();
-                let mut t2 = b.clone();
-                t1.prio = 1;
-                t2.prio = prio_b;
-                let tasks = vec![t1, t2];
-                for analysis in ALL_ANALYSES {
-                    if prio_b == 1 && !analysis.is_fp() {
-                        continue;
-                    }
-                    for limit in [LimitMode::Huge, LimitMode::AtL, LimitMode::BelowL] {
-                        let c = Case { tasks: tasks.clone(), tua: 0, analysis, blocking: (a.wcet + b.deadline) % 3, limit, wrap: Wrap::Plain };
-                        r.evaluations += 1;
-                        match check(&c) {
-                            Ok(o) => {
-                                if o.nontrivial {
-                                    r.nontrivial += 1;
+    // 16 worker threads, each taking every 16th first task
+    let results: Vec<(u64, u64, Option<(serde_json::Value, String)>)> = std::thread::scope(|sc| {
+        let handles: Vec<_> = (0..16usize)
+            .map(|w| {
+                let singles = &singles;
+                sc.spawn(move || {
+                    let mut evals = 0u64;
+                    let mut nontrivial = 0u64;
+                    for (ia, a) in singles.iter().enumerate() {
+                        if ia % 16 != w {
+                            continue;
+                        }
+                        for b in singles {
+                            for prio_b in [0u32, 1] {
+                                let mut t1 = a.clone();
+                                let mut t2 = b.clone();
+                                t1.prio = 1;
+                                t2.prio = prio_b;
+                                let tasks = vec![t1, t2];
+                                for analysis in ALL_ANALYSES {
+                                    if prio_b == 1 && !analysis.is_fp() {
+                                        continue;
+                                    }
+                                    for limit in [LimitMode::Huge, LimitMode::AtL, LimitMode::BelowL] {
+                                        let c = Case { tasks: tasks.clone(), tua: 0, analysis, blocking: (a.wcet + b.deadline) % 3, limit, wrap: Wrap::Plain };
+                                        evals += 1;
+                                        match run_check(&check, &c) {
+                                            Ok(o) => {
+                                                if o.nontrivial {
+                                                    nontrivial += 1;
+                                                }
+                                            }
+                                            Err(msg) => return (evals, nontrivial, Some((serde_json::to_value(&c).unwrap(), msg))),
+                                        }
+                                    }
                                 }
-                            }
-                            Err(msg) => {
-                                r.failure = Some((serde_json::to_value(&c).unwrap(), msg));
-                                return r;
                             }
                         }
                     }
-                }
-            }
+                    (evals, nontrivial, None)
+                })
+            })
+            .collect();
+        handles.into_iter().map(|h| h.join().expect("worker")).collect()
+    });
+    for (e, n, f) in results {
+        r.evaluations += e;
+        r.nontrivial += n;
+        if r.failure.is_none() {
+            r.failure = f;
         }
+    }
+    if r.failure.is_some() {
+        return r;
     }
     r.note = format!(
         "every ordered pair of sporadic tasks with T in {:?}, J in {:?}, WCET in {:?}, D in {:?} (two segments, last = 1), lower or equal priority of the second task, all nine analyses, limits huge / = L / L-1: crate vs. naive evaluation over every offset",
